@@ -59,6 +59,7 @@ const ShardID = 1
 // the mirror shard of the "+2" configurations
 const (
 	MirrorShardID = 2
+	SideShardID   = 3
 	MirrorRP      = "rp1"
 	MirrorTime    = int64(4102444800000000000) // 2100-01-01
 )
@@ -1527,6 +1528,40 @@ func (h *H) Step(op string) (out string) {
 		return h.MeasurementsIn(f[1])
 	case "card":
 		return h.Cardinality()
+	case "sidew":
+		// another shard of the database (under a third retention policy) takes points of its
+		// own; the shard observed does not hold them, so none of its listings changes
+		if h.Store.Shard(SideShardID) == nil {
+			if err := h.Store.CreateShard(DB, "rp2", SideShardID, true); err != nil {
+				return "err:" + strings.ReplaceAll(err.Error(), " ", "_")
+			}
+			h.quiet()
+		}
+		pts, err := ParsePoints(f[1])
+		if err != nil {
+			return "bad-op"
+		}
+		if err := h.Store.WriteToShard(SideShardID, pts); err != nil {
+			return "err:" + strings.ReplaceAll(err.Error(), " ", "_")
+		}
+		return "ok"
+	case "sidelist":
+		// the listings are asked for while the other shard exists; what they answer is not
+		// looked at (the in-memory index is one per database and lists the other shard's
+		// series too)
+		h.Series()
+		h.SeriesBy(f[1], "host", "ne", "c")
+		h.SeriesBy(f[1], "region", "ne", "x")
+		return "ok"
+	case "sidedel":
+		// ... and is removed as a whole (Store.DeleteShard, what retention does)
+		if h.Store.Shard(SideShardID) == nil {
+			return "ok"
+		}
+		if err := h.Store.DeleteShard(SideShardID); err != nil {
+			return "err:" + strings.ReplaceAll(err.Error(), " ", "_")
+		}
+		return "ok"
 	case "idxcompact":
 		return h.IndexCompact()
 	case "sfcompact":
